@@ -78,7 +78,7 @@ func (ecb *ecbBlockCipher) Encrypt(rand io.Reader, key, plaintext []byte) (*pkix
 	}
 	mode := smcipher.NewECBEncrypter(block)
 	pkcs7 := padding.NewPKCS7Padding(uint(block.BlockSize()))
-	plaintext = pkcs7.Pad(plaintext)
+	plaintext = pkcs7.Pad(plaintext[:len(plaintext):len(plaintext)]) // never pad into the caller's spare capacity
 	ciphertext := make([]byte, len(plaintext))
 	mode.CryptBlocks(ciphertext, plaintext)
 
@@ -159,7 +159,7 @@ func (c *cbcBlockCipher) Decrypt(key []byte, parameters *asn1.RawValue, cipherte
 func cbcEncrypt(block cipher.Block, iv, plaintext []byte) ([]byte, error) {
 	mode := cipher.NewCBCEncrypter(block, iv)
 	pkcs7 := padding.NewPKCS7Padding(uint(block.BlockSize()))
-	plainText := pkcs7.Pad(plaintext)
+	plainText := pkcs7.Pad(plaintext[:len(plaintext):len(plaintext)]) // never pad into the caller's spare capacity
 	ciphertext := make([]byte, len(plainText))
 	mode.CryptBlocks(ciphertext, plainText)
 	return ciphertext, nil
